@@ -202,6 +202,13 @@ pub fn run(run: &RunInfo) -> Summary {
             let cur2 = cur_op.clone();
             let mut cfg = base_config();
             cfg.transactions_max_num = *max;
+            // the configuration: as usual, or without a terminal id and with another password / currency
+            if sh.borrow_mut().any(2, "configuration") == 1 {
+                cfg.terminal_id = String::new();
+                cfg.feig_config.password = 654_321;
+                cfg.feig_config.currency = 826;
+                acc.count("w_config_variant", 1);
+            }
             let rc_to = cfg.feig_config.read_card_timeout as u64;
             let hook: Hook = Box::new(move |t, ctx, req, x, _nth| {
                 let steps = default_script(t, req, &Outcome::Ok, 1);
@@ -367,6 +374,7 @@ pub fn run(run: &RunInfo) -> Summary {
     for (c, w) in [
         ("w_second_client_foreign", "a second client of the process met a terminal with the first client's (not its own) serial number"),
         ("w_second_client_own", "a second client of the process was accepted by its own terminal on one connection"),
+        ("w_config_variant", "a configuration without terminal id and with a non-default password and currency was used"),
         ("w_fault_reconnect", "a fault was followed by a fresh, vetted connection"),
         ("w_just_in_time_kept", "a reply one millisecond before the time-out kept the connection"),
         ("w_wrong_serial", "a terminal with a different serial number was met"),
@@ -387,7 +395,7 @@ pub fn run(run: &RunInfo) -> Summary {
         transitions: acc.get("transitions"),
         traces_validated: execs,
         distinct_nontrivial: acc.set_len("outcomes"),
-        rule: format!("real Feig client against the simulated terminal (paused clock): 7 scenarios (Feig::new, then read_card / begin / commit idle / cancel idle / commit and cancel with another transaction open / configure, then a further read_card) x every placement of <= {budget} fault(s): at every terminal-to-client packet (handshake included) one of close, close after half a packet, reset, undecodable body, foreign control field, NACK, silence, reply 1 ms after / 1 ms before the time-out, wrong serial, serial differing in case; and the peer closing the idle connection before any operation; plus two clients in one process (the first at three stages of progress) x 5 pairs of configured / reported serial number of the second. Oracle on the global connection log"),
+        rule: format!("real Feig client against the simulated terminal (paused clock): 2 configurations (usual; no terminal id, other password and currency) x 7 scenarios (Feig::new, then read_card / begin / commit idle / cancel idle / commit and cancel with another transaction open / configure, then a further read_card) x every placement of <= {budget} fault(s): at every terminal-to-client packet (handshake included) one of close, close after half a packet, reset, undecodable body, foreign control field, NACK, silence, reply 1 ms after / 1 ms before the time-out, wrong serial, serial differing in case; and the peer closing the idle connection before any operation; plus two clients in one process (the first at three stages of progress) x 5 pairs of configured / reported serial number of the second. Oracle on the global connection log"),
         exhaustive: true,
         required_witnesses: vec![
             "a fault was followed by a fresh, vetted connection".into(),
@@ -396,6 +404,7 @@ pub fn run(run: &RunInfo) -> Summary {
             "a serial number differing only in case was accepted".into(),
             "the peer closed an idle connection".into(),
             "a fault-free history used a single connection".into(),
+            "a configuration without terminal id and with a non-default password and currency was used".into(),
             "a second client of the process met a terminal with the first client's (not its own) serial number".into(),
             "a second client of the process was accepted by its own terminal on one connection".into(),
         ],
